@@ -116,7 +116,8 @@ public:
 
   size_t size() const
   {
-    return (raw_bit_size_ - first_) / stride_;
+    // The number of positions first_, first_+stride_, ... below raw_bit_size_.
+    return (raw_bit_size_ - first_ + stride_ - 1) / stride_;
   }
 
 private:
